@@ -12,6 +12,8 @@ def main():
     res = {"seed": d, "checks": {}}
     if confirm:
         r = sh(f"PYTHONPATH=/repo /venv/bin/python {d}/demo.py"); res["demo_clean_rc"] = r.returncode
+    # evidence files belong to runs on the unchanged tree: keep them aside while the patched tree is checked
+    sh("rm -rf /verif/.cache/evidence.keep && mkdir -p /verif/.cache && cp -r /verif/evidence /verif/.cache/evidence.keep")
     r = sh(f"git -C /repo apply {patch}")
     if r.returncode != 0:
         print("patch does not apply:", r.stderr); sys.exit(2)
@@ -27,6 +29,7 @@ def main():
                                 "engine_errors": [l for l in r.stdout.splitlines() if l.startswith("ENGINE-ERROR")][:2]}
     finally:
         sh("git -C /repo checkout -- . && git -C /repo clean -fdq ofxtools")
+        sh("rm -rf /verif/evidence && cp -r /verif/.cache/evidence.keep /verif/evidence")
     print(json.dumps(res, indent=1))
 
 main()
